@@ -116,12 +116,13 @@ Proof. repeat split; repeat constructor. Qed.
 
 (* the token-level statement for the concrete stack: what remains to be assumed is about the lexer
    stack only (chunking of the reference tokenizer, token-faithful echo of the lexer model) *)
-Lemma build_code_tokens_now (T : Type) (sigt : bytes -> option (list T)) :
+Lemma build_code_tokens_now (T : Type) (sigt : bytes -> option (list T)) (good : list bytes -> Prop) :
   (forall a b ta tb, ends_with_nl a = true -> sigt a = Some ta -> sigt b = Some tb ->
                      sigt (a ++ b) = Some (ta ++ tb)) ->
   (forall a ta, sigt a = Some ta -> sigt (a ++ [10]) = Some ta) ->
   sigt [] = Some [] ->
-  (forall ls q t, from_lines ls = Ok q -> sigt (concat ls) = Some t -> sigt (concat (echo_lines q)) = Some t) ->
+  (forall ls q t, good ls -> from_lines ls = Ok q -> sigt (concat ls) = Some t ->
+                  sigt (concat (echo_lines q)) = Some t) ->
   forall cwd fs lua_path fuel main_path main_content out,
   build_code_now cwd fs lua_path fuel main_path main_content = Ok out ->
   exists r pk, build_lua_now cwd fs lua_path fuel main_path main_content = Ok (r, pk) /\
@@ -131,6 +132,10 @@ Lemma build_code_tokens_now (T : Type) (sigt : bytes -> option (list T)) :
      lexes end_line_now ->
      Forall (fun e => lexes (header_line_now (fst e)) /\ lexes (concat (echo_lines (snd e)))) pk ->
      lexes main_content ->
+     good (file_lines main_content) ->
+     (forall m, from_lines (file_lines main_content) = Ok m ->
+                good (prepend_lines lua echo_lines require_lua_preamble_package require_lua_preamble_require
+                                    header_line_now end_line_now nl_line_now m pk)) ->
      sigt out = Some match pk with
                      | [] => toks main_content
                      | _ => concat (map toks require_lua_preamble_package)
@@ -142,7 +147,7 @@ Proof.
   intros H1 H2 H3 H4 cwd fs lua_path. destruct constants_nl as (Hnl & Hend & Hpp & Hpr).
   exact (build_code_tokens lua from_lines echo_lines strip_lua walk_lua file_lines check_name_now
            (find_in cwd fs lua_path) require_lua_preamble_package require_lua_preamble_require
-           header_line_now end_line_now nl_line_now T sigt H1 H2 H3 H4 file_lines_concat Hnl
+           header_line_now end_line_now nl_line_now T sigt H1 H2 H3 good H4 file_lines_concat Hnl
            header_line_now_nl Hend Hpp Hpr).
 Qed.
 
